@@ -191,6 +191,11 @@ func vfGenDetCfg(t *rapid.T, dynamic bool, big bool) vfDetCfg {
 	if c.Count > interior {
 		c.Count = interior
 	}
+	if rapid.IntRange(0, 9).Draw(t, "hugecount") == 0 {
+		// more pixels than the image has (nothing may ever be reported), around the widths of narrower integer types
+		k := rapid.IntRange(0, interior).Draw(t, "countk")
+		c.Count = rapid.SampledFrom([]int{interior + 1, 255 + k, 256 + k, 65535 + k, 65536 + k, 1<<31 - 1, 1<<31 + k, 1<<32 + k}).Draw(t, "countbase")
+	}
 	c.Gap = rapid.SampledFrom([]int{1, 1, 2, 3, 4, 6}).Draw(t, "gap")
 	c.Warmer = rapid.Bool().Draw(t, "warmer")
 	c.OneDiff = rapid.Bool().Draw(t, "onediff")
